@@ -43,6 +43,49 @@ Theorem T09_1_first_loop_is_history_loop :
 Proof. exact first_loop_is_history_loop. Qed.
 Print Assumptions T09_1_first_loop_is_history_loop.
 
+(* T09.5 lifted to format_code: when every stage other than those of _multi_run_fixes is inert
+   (and every text is a valid non-blank module, safe = false), format_code is the first history loop
+   (the second loop is never entered) ... *)
+Theorem T09_5_format_code_is_history_loop :
+  forall (St : Type) (eqb : St -> St -> bool), (forall a b, eqb a b = true <-> a = b) ->
+  forall (Pres : Type) (indent_level : St -> nat) (surface : Pres -> St -> Pres)
+         (app : stage -> Pres -> St -> St) (n_multi max_file_passes : nat),
+    (forall st p s, is_multi st = false -> app st p s = s) ->
+  forall keep p0 s,
+    format_code_model St eqb Pres (fun _ => false) (fun _ => false) (fun _ => true) indent_level surface
+                      app (fun _ s => s) n_multi max_file_passes false keep p0 s
+    = fst (fst (run St eqb (multi_fun St Pres app n_multi p0) max_file_passes s)).
+Proof. exact format_code_is_history_loop. Qed.
+Print Assumptions T09_5_format_code_is_history_loop.
+
+(* ... and therefore idempotent on its own output whenever the loop stopped on a history hit,
+   whatever the multi-run stages do (they may oscillate among themselves) *)
+Theorem T09_5_format_code_idempotent_when_inert :
+  forall (St : Type) (eqb : St -> St -> bool), (forall a b, eqb a b = true <-> a = b) ->
+  forall (Pres : Type) (indent_level : St -> nat) (surface : Pres -> St -> Pres)
+         (app : stage -> Pres -> St -> St) (n_multi max_file_passes : nat),
+    (forall st p s, is_multi st = false -> app st p s = s) ->
+  forall keep p0 s,
+    snd (run St eqb (multi_fun St Pres app n_multi p0) max_file_passes s) = true ->
+    let F := format_code_model St eqb Pres (fun _ => false) (fun _ => false) (fun _ => true) indent_level
+                               surface app (fun _ s => s) n_multi max_file_passes false keep p0 in
+    F (F s) = F s.
+Proof. exact format_code_idempotent_when_inert. Qed.
+Print Assumptions T09_5_format_code_idempotent_when_inert.
+
+(* T09.6 for arbitrary stages: a text that every stage leaves alone is a fixed point of format_code
+   (so a second application can only differ where some single stage still changes the text) *)
+Theorem T09_6_stagewise_fixed_point :
+  forall (St : Type) (eqb : St -> St -> bool) (Pres : Type) (indent_level : St -> nat)
+         (surface : Pres -> St -> Pres) (app : stage -> Pres -> St -> St) (n_multi max_file_passes : nat)
+         (skip_file is_blank valid : St -> bool) (minws : St -> St -> St) (r : St),
+    (forall st p, app st p r = r) -> (forall o, minws o r = r) ->
+  forall safe keep p0,
+    format_code_model St eqb Pres skip_file is_blank valid indent_level surface app minws
+                      n_multi max_file_passes safe keep p0 r = r.
+Proof. exact format_code_fixed_point. Qed.
+Print Assumptions T09_6_stagewise_fixed_point.
+
 (* T09.2 the history of processing.fix / chain is {source} and never extended: the loop stops
    early exactly at the first return to the INITIAL text, otherwise all max_iter passes run *)
 Theorem T09_2_fix_history_initial_only :
